@@ -1003,15 +1003,17 @@ pub fn tree_strategy(p: &Profile, depth: u32, width: usize) -> BoxedStrategy<FTr
         if p.lambdas {
             v.push((
                 1,
-                (inner.clone(), inner.clone(), any::<bool>(), pct(20))
-                    .prop_map(|(body, arg, call, optional)| {
+                (inner.clone(), inner.clone(), inner.clone(), any::<bool>(), pct(20), pct(30))
+                    .prop_map(|(body, arg, arg2, call, optional, two)| {
                         // body mentions the parameter so that variable handling is exercised
                         let body = FTree::Bin(BinOp::Add, Box::new(FTree::Name("x".into())), Box::new(body));
                         let mut params = vec![("x".to_string(), false)];
-                        if optional {
-                            params.push(("y".to_string(), true));
+                        if optional || two {
+                            params.push(("y".to_string(), optional));
                         }
-                        FTree::Lambda { params, body: Box::new(body), call: if call { Some(vec![arg]) } else { None } }
+                        // a call with two arguments prints an argument separator after `)(`
+                        let args = if two { vec![arg, arg2] } else { vec![arg] };
+                        FTree::Lambda { params, body: Box::new(body), call: if call { Some(args) } else { None } }
                     })
                     .boxed(),
             ));
